@@ -11,6 +11,11 @@ use std::sync::atomic::{AtomicU64, Ordering};
 
 pub const BIN: &str = "/verif/harness/target/sut/release/ruschm";
 
+/// the binary under test (RV_BIN overrides the path for development against a scratch tree)
+pub fn bin_path() -> String {
+    std::env::var("RV_BIN").unwrap_or_else(|_| BIN.to_string())
+}
+
 pub fn strip_ticks_expr(e: &Expr) -> Expr {
     map_expr(e, &|x| match x {
         Expr::Tick(_, inner) => Some(strip_ticks_expr(inner)),
@@ -146,14 +151,14 @@ pub struct RunResult {
 
 pub fn run_binary(args: &[&str], cwd: &std::path::Path, stdin: Option<&str>) -> RunResult {
     use std::io::Write;
-    let mut cmd = Command::new(BIN);
+    let mut cmd = Command::new(bin_path());
     cmd.args(args).current_dir(cwd).stdout(std::process::Stdio::piped()).stderr(std::process::Stdio::piped());
     cmd.stdin(if stdin.is_some() { std::process::Stdio::piped() } else { std::process::Stdio::null() });
     cmd.env_remove("RUST_BACKTRACE");
     let mut child = match cmd.spawn() {
         Ok(c) => c,
         Err(e) => {
-            eprintln!("[rv] cannot run {}: {} (run ./check --setup)", BIN, e);
+            eprintln!("[rv] cannot run {}: {} (run ./check --setup)", bin_path(), e);
             std::process::exit(2);
         }
     };
@@ -161,8 +166,32 @@ pub fn run_binary(args: &[&str], cwd: &std::path::Path, stdin: Option<&str>) -> 
         let mut si = child.stdin.take().unwrap();
         let _ = si.write_all(text.as_bytes());
     }
+    // watchdog: a child that does not finish within two minutes is killed (reported with code None and a marker)
+    let pid = child.id();
+    let done = std::sync::Arc::new(std::sync::atomic::AtomicBool::new(false));
+    let killed = std::sync::Arc::new(std::sync::atomic::AtomicBool::new(false));
+    {
+        let (done, killed) = (done.clone(), killed.clone());
+        std::thread::spawn(move || {
+            for _ in 0..1200 {
+                std::thread::sleep(std::time::Duration::from_millis(100));
+                if done.load(Ordering::SeqCst) {
+                    return;
+                }
+            }
+            killed.store(true, Ordering::SeqCst);
+            unsafe {
+                libc::kill(pid as i32, libc::SIGKILL);
+            }
+        });
+    }
     let out = child.wait_with_output().unwrap();
-    RunResult { stdout: String::from_utf8_lossy(&out.stdout).to_string(), stderr: String::from_utf8_lossy(&out.stderr).to_string(), code: out.status.code() }
+    done.store(true, Ordering::SeqCst);
+    let mut stderr = String::from_utf8_lossy(&out.stderr).to_string();
+    if killed.load(Ordering::SeqCst) {
+        stderr.push_str("\n[rv] killed by the watchdog after 120 s");
+    }
+    RunResult { stdout: String::from_utf8_lossy(&out.stdout).to_string(), stderr, code: out.status.code() }
 }
 
 const LIB_TEXT: &str = "(define-library (mylib helper)\n  (import (scheme base))\n  (export helper-double)\n  (begin (define (helper-double x) (* 2 x))))\n";
